@@ -510,6 +510,22 @@ def alias_checks(ctx, S):
             except Exception as e:  # noqa: BLE001
                 again = "raises %s" % type(e).__name__
             ctx.count("held_results_rechecked")
+            # the same bytes decoded a second time give a result of their own: the caller editing that one changes neither the first
+            # result nor what a third decode of these bytes returns
+            try:
+                twin = f.lib_decode(b1, v1)
+                if twin is r1 and isinstance(r1, (dict, list)):
+                    ctx.fail("C09:decode.same_object_for_equal_bytes.%s" % f.name, "decoding equal %s responses twice returned one and the same result object" % f.name, {"format": f.name, "response": bytes(b1)})
+                scribble_all(twin)
+                if isinstance(twin, dict):
+                    twin.clear()
+                third = repr(f.lib_decode(b1, v1))
+                ctx.count("equal_bytes_decoded_thrice")
+                if repr(r1) != was or third != was:
+                    ctx.fail("C09:decode.result_shared_between_equal_responses.%s" % f.name, "after the caller edited the result of decoding a %s response, %s" % (
+                        f.name, "an earlier result of decoding the same bytes changed" if repr(r1) != was else "decoding the same bytes again returns the edited values"), {"format": f.name, "response": bytes(b1)})
+            except Exception:  # noqa: BLE001
+                ctx.count("held_result_decode_raised")
             if g.name in probes:
                 pv, pb, pwas = probes[g.name]
                 try:
